@@ -41,3 +41,66 @@ Fixpoint mismatches {A} (ok : A -> bool) (i : nat) (l : list A) : list nat :=
   | [] => []
   | x :: r => if ok x then mismatches ok (S i) r else i :: mismatches ok (S i) r
   end.
+
+(* ---------- C05/C06: correlations with oracle tables ---------- *)
+From PG Require Import Thermo.RawData.
+
+Definition BADQ : Q := 123456789012345678901234567890 # 1.
+Fixpoint look1 (t : list (Q * Q)) (x : Q) : Q :=
+  match t with
+  | [] => BADQ
+  | (k, v) :: r => if Qeq_bool k x then v else look1 r x
+  end.
+Fixpoint look2 (t : list (Q * Q * Q)) (a b : Q) : Q :=
+  match t with
+  | [] => BADQ
+  | (k1, k2, v) :: r => if Qeq_bool k1 a && Qeq_bool k2 b then v else look2 r a b
+  end.
+
+Definition res_agree (tol scale : Q) (m i : res Q) : bool :=
+  match m, i with
+  | Ok a, Ok b => close tol scale a b
+  | Raise e, Raise e' => terr_same e e'
+  | _, _ => false
+  end.
+
+Record tables := { t_spl : list (Q * Q); t_int : list (Q * Q * Q);
+                   t_quad : list (Q * Q * Q); t_ln : list (Q * Q * Q) }.
+
+Definition Qraw_cp (t : tables) := raw_cp (K:=Qops) (look1 (t_spl t)).
+Definition Qraw_h (t : tables) := raw_h (K:=Qops) (look2 (t_int t)).
+Definition Qraw_s (t : tables) := raw_s (K:=Qops) (look2 (t_quad t)) (look2 (t_ln t)).
+
+(* one evaluation point: T and the implementation's cp, h, s *)
+Definition rawpoint := (Q * res Q * res Q * res Q)%type.
+
+Definition raw_case_ok (tol scale : Q) (pts : list (Q * Q)) (range : option (Q * Q))
+           (H S Tref : Q) (t : tables) (ctor : option terr) (evals : list rawpoint) : bool :=
+  match construct (K:=Qops) pts range H S Tref, ctor with
+  | Raise e, Some e' => terr_same e e'
+  | Ok c, None =>
+      forallb (fun p : rawpoint =>
+                 let '(T, icp, ih, is_) := p in
+                 res_agree tol scale (Qraw_cp t c T) icp
+                 && res_agree tol scale (Qraw_h t c T) ih
+                 && res_agree tol scale (Qraw_s t c T) is_) evals
+  | _, _ => false
+  end.
+
+Definition incpoint := (Q * ev Qops * ev Qops * ev Qops * ev Qops)%type.
+
+Definition inc_case_ok (tol scale : Q) (i : inc (K:=Qops)) (t : tables)
+           (ctor : option terr) (evals : list incpoint) : bool :=
+  match inc_setup (K:=Qops) i, ctor with
+  | Raise e, Some e' => terr_same e e'
+  | Ok r, None =>
+      forallb (fun p : incpoint =>
+                 let '(T, icp, ih, is_, ig) := p in
+                 ev_agree tol scale (inc_cp (K:=Qops) (look1 (t_spl t)) i r T) icp
+                 && ev_agree tol scale (inc_h (K:=Qops) (look2 (t_int t)) i r T) ih
+                 && ev_agree tol scale (inc_s (K:=Qops) (look2 (t_quad t)) (look2 (t_ln t)) i r T) is_
+                 && ev_agree tol scale
+                      (inc_g (K:=Qops) (look2 (t_int t)) (look2 (t_quad t)) (look2 (t_ln t)) i r T) ig)
+              evals
+  | _, _ => false
+  end.
